@@ -398,13 +398,20 @@ class Interp:
                 s = out.state.copy()
                 s.env = caller_env
                 if out.kind == 'return':
-                    yield out.value, s
+                    res = (out.value, s)
                 elif out.kind == 'fall':
-                    yield NONE, s
+                    res = (NONE, s)
                 elif out.kind == 'raise':
-                    yield None, s.raising(out.value)
+                    res = (None, s.raising(out.value))
                 else:
                     raise Unsupported('%s outside loop in %s' % (out.kind, fn.qualname))
+                # while the consumer continues with this outcome the callee frame is finished:
+                # keep `self.stack` equal to the abstract call stack (recursion test, locations)
+                self.stack.pop()
+                try:
+                    yield res
+                finally:
+                    self.stack.append(fn)
         finally:
             self.stack.pop()
 
@@ -746,6 +753,9 @@ class Interp:
                                       self.cur.qualname))
             else:
                 for o, s in self.ev(tgt.value, st):
+                    if isinstance(o, ExtRef):
+                        s = s.note(('ext-store', o.dotted + '.' + tgt.attr, v, tgt.lineno,
+                                    self.cur.qualname))
                     yield s.effect(Effect('store', ('attr', o, tgt.attr), (v,), tgt.lineno,
                                           self.cur.qualname))
         elif isinstance(tgt, ast.Subscript):
@@ -1292,6 +1302,8 @@ class Interp:
                     yield from self.do_call(f, args, kwargs, s3, node)
 
     def do_call(self, f, args, kwargs, st, node):
+        if isinstance(f, ExtRef) and f.dotted.startswith('mpmath.'):
+            st = st.note(('mp-op', f.dotted, node.lineno, self.cur.qualname))
         # exceptions the check says this call may raise
         for exc in self.hooks.may_raise(f, args, st, node) or ():
             yield None, st.raising(exc).note(('raised-by', describe(f), node.lineno))
